@@ -1430,9 +1430,9 @@ impl Block {
                 total_number_of_non_fee_transactions += 1;
             }
 
-            if (transaction.is_golden_ticket() || transaction.is_normal_transaction())
-                && !transaction.is_atr_transaction()
-            {
+            // every transaction a user sends can pay a fee (NFT and staking transactions too): a fee that
+            // is counted nowhere is value that has left the ledger
+            if !transaction.is_block_generated_type() {
                 cv.total_bytes_new += transaction.get_serialized_size() as u64;
                 cv.total_fees_new += transaction.total_fees;
             }
